@@ -11,6 +11,7 @@ import (
 	"gitlab.com/yawning/obfs4.git/transports"
 
 	"verifsim/harness"
+	"verifsim/verifrt"
 )
 
 var props = map[string]*harness.Prop{}
@@ -32,6 +33,27 @@ var env = &harness.Env{
 			csrand.Reader = r
 		}
 	},
+}
+
+// maybeYields switches the woven statement-level yields of the ScrambleSuit
+// client on for a tape-chosen fraction of the runs (swarm: off, or one site
+// in 32 / 8 / 3 / every site).
+func maybeYields(c *harness.Ctx) {
+	k := []int{0, 0, 32, 8, 3, 1}[c.T.Draw("b2.yield-density", 6)]
+	c.Info["woven_yield_one_in"] = k
+	if k == 0 {
+		return
+	}
+	salt := c.T.Draw("b2.yield-salt", 1<<16)
+	c.S.YieldOn = func(site int) bool {
+		x := uint32(site)*2654435761 + uint32(salt)*40503
+		x ^= x >> 15
+		return int(x%uint32(k)) == 0
+	}
+	c.S.MaxSteps *= 5
+	verifrt.Activate(c.S)
+	c.AtEnd(verifrt.Deactivate)
+	c.Feature("woven-yields-active")
 }
 
 func TestVerif(t *testing.T) {
